@@ -279,6 +279,62 @@ def dyadic_case(k):
     return all(Fraction(v[1]).denominator <= 1024 for v in vals)
 
 
+# --------------------------------------------------------------------------- multichannel
+def cmitem(a):
+    return '(ML %s)' % clist(a[1], cnum) if a[0] == 'L' else '(MS %s)' % cnum(a)
+
+
+def cmcurve(a):
+    return '(MCL %s)' % clist(a[1], ccurve) if a[0] == 'L' else '(MCS %s)' % ccurve(a)
+
+
+def cmenv(sp):
+    off = sp.get('offset', 'absent')
+    return '(menv_init %s %s %s %s %s %s)' % (clist(sp['levels'], cmitem), clist(sp['times'], cmitem), clist(sp['curves'], cmcurve),
+                                              coptz(sp['rel']), coptz(sp['loop']),
+                                              '(Some (I 0%Z))' if off == 'absent' else copt(off, cnum))
+
+
+def g_mc(rng):
+    """envelopes whose level / time / curve items may be lists (multichannel expansion through utl.flop)"""
+    n = rng.randint(1, 4)
+    widths = [1, 1, 2, 3, rng.choice([2, 4])]
+    def lst(f):
+        return ['L', [f() for _ in range(rng.choice(widths))]]
+    def level():
+        return g_level(rng)
+    def dur():
+        return g_dur(rng, 0.05)
+    rat = [['N', 'lin'], ['N', 'step'], ['N', 'hold'], ['F', '0'], ['N', 'linear']]
+    anyc = rat + [['N', 'sin'], ['I', '-4'], ['N', 'cub'], ['N', 'welch'], ['N', 'exp'], ['N', 'squared']]
+    fam = rat if rng.random() < 0.6 else anyc
+    def cur():
+        return rng.choice(fam) if rng.random() > 0.03 else ['N', 'foo']
+    levels = [lst(level) if rng.random() < 0.4 else level() for _ in range(n + 1)]
+    times = [lst(dur) if rng.random() < 0.3 else dur() for _ in range(rng.choice([1, n, n]))]
+    curves = [lst(cur) if rng.random() < 0.3 else cur() for _ in range(rng.choice([1, 1, n, n + 1]))]
+    if rng.random() < 0.04:
+        curves = []
+    sp = {'levels': levels, 'times': times, 'curves': curves, 'rel': rng.choice([None, 0, 1]), 'loop': rng.choice([None, 0]),
+          'offset': rng.choice(['absent', 'absent', ['F', '1/2']])}
+    ts = sorted({Fraction(rng.randint(-4, 40), 8) for _ in range(5)} | {Fraction(0), Fraction(1)})
+    return {'k': 'mc', 'env': sp, 'ts': [str(t) for t in ts]}
+
+
+MC_FIXED = [
+    {'k': 'mc', 'env': {'levels': [['I', '0'], ['L', [['I', '1'], ['I', '2'], ['I', '3']]], ['I', '0']],
+                        'times': [['I', '1'], ['L', [['I', '2'], ['I', '3']]]],
+                        'curves': [['N', 'lin'], ['L', [['N', 'sin'], ['I', '-2']]]], 'rel': 1, 'loop': 0, 'offset': 'absent'},
+     'ts': ['0', '1', '2']},
+    {'k': 'mc', 'env': {'levels': [['L', [['I', '0'], ['I', '5']]], ['L', [['I', '1'], ['I', '2']]], ['I', '0']],
+                        'times': [['I', '1'], ['I', '1']], 'curves': [['N', 'lin']], 'rel': None, 'loop': None, 'offset': 'absent'},
+     'ts': ['0', '1/2', '1', '3/2', '2', '3']},
+    {'k': 'mc', 'env': {'levels': [['I', '0'], ['L', [['I', '1']]], ['I', '0']], 'times': [['L', [['I', '1'], ['I', '2'], ['I', '4'], ['F', '1/2']]]],
+                        'curves': [['L', [['N', 'hold']]], ['N', 'step']], 'rel': None, 'loop': None, 'offset': ['F', '1/2']},
+     'ts': ['0', '1/2', '1', '3/2', '5']},
+]
+
+
 # --------------------------------------------------------------------------- deterministic sweeps
 ZEROS = [['I', '0'], ['F', '0']]
 DISTINCT_T = [['I', '1'], ['F', '1/2'], ['I', '2'], ['F', '1/4'], ['I', '4']]
@@ -429,6 +485,33 @@ HIST_FIXED = [
 ]
 
 
+def cexpected_chans(o):
+    if isinstance(o, dict):
+        e = o['err']
+        return '(Err %s)' % (e if e in ERRS else 'OtherError')
+    return '(Ok %s)' % clist([clist(['(%s, %s, %s)%%Z' % (t, n if int(n) >= 0 else '(%s)' % n, d) for t, n, d in ch]) for ch in o])
+
+
+def multichannel_correspondence(ctx, c, mc, mc_out):
+    items = []
+    for k, o in zip(mc, mc_out):
+        term = cmenv(k['env'])
+        ats = ' && '.join('mc_at_agrees (mc_env_at %s %s) %s' % (term, cq(Fraction(t)), cexpected(v)) for t, v in zip(k['ts'], o['at']))
+        items.append('(mc_fmt_agrees (mc_envgen_format %s) %s && %s)' % (term, cexpected_chans(o['chans']), ats or 'true'))
+        c.count('kind:multichannel')
+        if not isinstance(o['chans'], dict):
+            c.count('channels:%d' % len(o['chans']))
+            if len(o['chans']) > 1:
+                c.nontriv(('mc', k['env']))
+    bad, errs = fw.check_shards(ctx, 'mc', HEADER, items, 'Eval vm_compute in bad_idx (fun b => b) cases.', shard=60)
+    for e in errs:
+        c.failures.append(Failure('correspondence', 'coq evaluation of multichannel cases failed: ' + e[-1200:]))
+    for i in bad[:3]:
+        c.failures.append(Failure('correspondence', 'multichannel: model/Env.v (mc_envgen_format / mc_env_at) and the implementation disagree on %s: impl=%s' % (
+            json.dumps(mc[i])[:600], json.dumps(mc_out[i])[:600]), replay={'case': mc[i], 'impl': mc_out[i]}))
+    c.evaluations_mc = len(mc)
+
+
 def python_level_checks(c, cases, out, raw, raw_out, hist, hist_out):
     """checks that need no model: the caller's arguments are not modified, the same arguments give the same
     envelope twice, EnvGen / IEnvGen / node-argument sites see the arrays of the same object, explicit
@@ -522,13 +605,16 @@ def correspond(ctx):
     for i, k in enumerate(cases):            # EnvGen / IEnvGen / node-argument sites from the same object
         if k['k'] in ('fmt', 'ctor') and (i % ctx.n(3, 2) == 0 or i < 400):
             k['sites'] = True
+    mc = MC_FIXED + [g_mc(rng) for _ in range(ctx.n(250, 3000))]
     raw = raw_cases()
     hist = HIST_FIXED + [g_hist(rng) for _ in range(ctx.n(150, 1500))]
-    res = ctx.impl('c19_env', {'cases': cases + raw + hist})
+    res = ctx.impl('c19_env', {'cases': cases + raw + hist + mc})
+    mc_out = res['out'][len(cases) + len(raw) + len(hist):]
     out, eps = res['out'][:len(cases)], res['eps']
     eps_t = ['F', '%s/%s' % (eps[1], eps[2])]
     python_level_checks(c, cases, out, raw, res['out'][len(cases):len(cases) + len(raw)],
-                        hist, res['out'][len(cases) + len(raw):])
+                        hist, res['out'][len(cases) + len(raw):len(cases) + len(raw) + len(hist)])
+    multichannel_correspondence(ctx, c, mc, mc_out)
 
     items, live = [], []
     for k, o in zip(cases, out):
@@ -578,7 +664,7 @@ def correspond(ctx):
             if n:
                 c.nontriv(('at', k['env']))
     c.count('at_evaluations_exact_in_model', n_exact)
-    c.evaluations = len(cases) + len(raw) + len(hist)
+    c.evaluations = len(cases) + len(raw) + len(hist) + len(mc)
     c.rule = ('Env(...)._envgen_format() and _interpolation_format() on generated level/time/curve lists (names, numbers, mixed, '
               'shorter/longer than the segment count, empty, invalid names, release/loop nodes, offsets), every constructor with dyadic '
               'parameters and with its documented defaults, and Env._at(t) on a grid of times (breakpoints, inside segments, before the '
